@@ -1439,6 +1439,26 @@ def reloc_cases():
                         model = reloc_file(cls, le, m, code, rela, e_flags=ef)
                         what = 'reloc|m=%s|%s(%d)' % (mname, name, code)
                     out.append(synth('-r', what, r'^0*c1[8c]\s', model))
+    # two relocation sections over two symbol tables that use the same symbol numbers for different symbols (an --emit-relocs executable:
+    # .rela.dyn -> .dynsym, .rela.text -> .symtab), in both orders
+    for cls, m, rt in ((64, EM['X86_64'], 1), (32, EM['I386'], 1)):
+        for order in (0, 1):
+            le, word, rela = True, 4 if cls == 32 else 8, cls == 64
+            b1, o1 = W.build_strtab(['c18sym', 'other'])
+            b2, o2 = W.build_strtab(['c18dyn', 'c18sym'])
+            nul = W.enc_sym(cls, le, 0, 0, 0, 0, 0, 0)
+            symtab = nul + W.enc_sym(cls, le, o1['c18sym'], 0x1000, 4, 0x12, 0, 1) + W.enc_sym(cls, le, o1['other'], 0x1004, 4, 0x11, 0, 1)
+            dynsym = nul + W.enc_sym(cls, le, o2['c18dyn'], 0x2008, 8, 0x12, 0, 1) + W.enc_sym(cls, le, o2['c18sym'], 0x3000, 4, 0x22, 0, 1)
+            rel = b''.join(W.enc_rel(cls, le, 0xc18 + 4 * k, sy, rt, 0x10 * k if rela else None) for k, sy in enumerate((1, 2, 1)))
+            rtyp, rnm = (SHT_RELA, '.rela') if rela else (SHT_REL, '.rel')
+            esz = (3 if rela else 2) * word
+            # indices: 1 .text, 2 .strtab, 3 .symtab, 4 .dynstr, 5 .dynsym, 6/7 the relocation sections
+            rsecs = [sec(rnm + '.dyn', rtyp, 2, link=5, info=0, entsize=esz, align=word, data=rel),
+                     sec(rnm + '.text', rtyp, 0x40, link=3, info=1, entsize=esz, align=word, data=rel)]
+            secs = [text_sec(), sec('.strtab', SHT_STRTAB, data=b1), sec('.symtab', SHT_SYMTAB, link=2, info=1, entsize=W.SYM_SIZE[cls], align=word, data=symtab),
+                    sec('.dynstr', SHT_STRTAB, 2, data=b2), sec('.dynsym', 11, 2, link=4, info=1, entsize=W.SYM_SIZE[cls], align=word, data=dynsym)]
+            out.append(synth('-r', 'reloc|two-symbol-tables|c=%d|%s' % (cls, 'dyn-first' if order == 0 else 'text-first'), r'^0*c1[8c]\s',
+                             elf_model(cls, le, m, secs + (rsecs if order == 0 else rsecs[::-1]))))
     # a machine the clone has no table for, and a file without relocations
     out.append(synth('-r', 'reloc|m=EM_SPARC|c=32|rela|no_table(1)', r'^0*c1[8c]\s', reloc_file(32, False, 2, 1, True)))
     out.append(synth('-r', 'reloc|none', r'^0*c1[8c]\s', elf_model(64, True, EM['X86_64'], [text_sec()])))
